@@ -2,7 +2,6 @@ import Vanguard.Model.Codes
 import Vanguard.Model.Percent
 import Vanguard.Spec.Codes
 import Vanguard.Lemmas.UInt8
-import Vanguard.Gen.Facts
 /-!
   C04 — RPC errors keep their code, message and details across protocols.
   Property theorems only (helper lemmas live in `Vanguard/Lemmas`).
@@ -97,50 +96,8 @@ example : grpcPercentDecode (grpcPercentEncode [0x66, 0xC3, 0xA9, 0x25, 0x0A]) =
   decide
 
 
-/-! ### the model's tables are the ones in the source (regenerated by `/verif/extract` on every run) -/
-
-/-- The table the model uses is, element for element, `httpStatusCodeFromRPCIndex` as the source
-    reads now. -/
-theorem source_status_table_is_model : Gen.statusTable = statusTable := by decide
-
-/-- The range guard in the source is the non-strict one the model uses, and out-of-range codes
-    get 500. -/
-theorem source_status_guard_is_model : Gen.statusGuardStrict = false ∧ Gen.statusOutOfRange = 500 := by decide
-
-/-- `httpStatusCodeToRPC` of the model is the switch in the source: first matching case, else the
-    default - for every status value. -/
-theorem source_to_rpc_is_model (status : Int) :
-    httpStatusToRPC status =
-      ((Gen.toRPCCases.find? fun c => (c.1 : Int) == status).map (·.2)).getD Gen.toRPCDefault := by
-  unfold httpStatusToRPC
-  simp only [Gen.toRPCCases, Gen.toRPCDefault, List.find?]
-  by_cases h1 : status = 200
-  · subst h1; rfl
-  by_cases h2 : status = 400
-  · subst h2; rfl
-  by_cases h3 : status = 401
-  · subst h3; rfl
-  by_cases h4 : status = 403
-  · subst h4; rfl
-  by_cases h5 : status = 404
-  · subst h5; rfl
-  by_cases h6 : status = 429
-  · subst h6; rfl
-  by_cases h7 : status = 502
-  · subst h7; rfl
-  by_cases h8 : status = 503
-  · subst h8; rfl
-  by_cases h9 : status = 504
-  · subst h9; rfl
-  have e1 : ((200 : Int) == status) = false := by simp; omega
-  have e2 : ((400 : Int) == status) = false := by simp; omega
-  have e3 : ((401 : Int) == status) = false := by simp; omega
-  have e4 : ((403 : Int) == status) = false := by simp; omega
-  have e5 : ((404 : Int) == status) = false := by simp; omega
-  have e6 : ((429 : Int) == status) = false := by simp; omega
-  have e7 : ((502 : Int) == status) = false := by simp; omega
-  have e8 : ((503 : Int) == status) = false := by simp; omega
-  have e9 : ((504 : Int) == status) = false := by simp; omega
-  simp [h1, h2, h3, h4, h5, h6, h7, h8, h9, e1, e2, e3, e4, e5, e6, e7, e8, e9]
+/-! The ties of these tables to the source as it reads now (`Vanguard.Gen`, regenerated on every run) are in
+    `Props/C04e2e.lean` (`source_*_is_model`): this file must not depend on generated facts, because the
+    lemma libraries of the response path are built on top of it. -/
 
 end Vanguard.C04
